@@ -147,6 +147,10 @@ class Ctx:
             k = known_keys[v.key]
             lines.append(f"KNOWN-FINDING: property={self.prop} {k.get('what', v.message)} [{v.rule} {v.function}]")
         replay_paths = []
+        # a construct positively identified as violating the property is reported as such (exit 1) even when some other rule of
+        # the same check could not decide its own clause (those ANALYSIS-ERROR lines are still printed)
+        if unlisted:
+            code = 0
         if unlisted and code == 0:
             os.makedirs(REPLAY_DIR, exist_ok=True)
         for i, v in enumerate(unlisted):
